@@ -11,6 +11,7 @@ import OdlModel.Gen.RecipGrid
 import OdlModel.Lemmas.Fourier
 import OdlModel.Lemmas.Wavelet
 import OdlModel.Lemmas.Phase
+import OdlModel.Lemmas.FourierNd
 import Mathlib.Analysis.SpecialFunctions.Trigonometric.Basic
 
 open OdlModel.Fourier
@@ -991,6 +992,121 @@ example (x : Array ℚ) (hx : x.size = 12) (fftw : Bool) :
   · intro a ha
     have : a = 2 ∨ a = 0 := by simpa using ha
     rcases this with rfl | rfl <;> norm_num
+
+/-- **Transforms along different axes commute** (about the executed fibre operator `alongAxis`):
+for two matrix maps (`F f k = Σ_j MF k j · f j`, such as every DFT / inverse DFT / diagonal
+pre- or post-processing step of the model) along two DIFFERENT axes of a C-ordered array — in the
+five-factor split `(oa, la, M, lb, ib)`: outer block, first axis, the axes between, second axis,
+inner block — the two orders give the same array, for every array content and all sizes. -/
+theorem C18.along_axis_commute {K : Type} [Field K] [Inhabited K] (oa la M lb ib : Nat)
+    (F G : (Nat → K) → Nat → K) (MF MG : Nat → Nat → K) (hF : IsMat F la MF) (hG : IsMat G lb MG)
+    (x : Array K) :
+    alongAxis oa la (M * lb * ib) la F (alongAxis (oa * la * M) lb ib lb G x)
+      = alongAxis (oa * la * M) lb ib lb G (alongAxis oa la (M * lb * ib) la F x) :=
+  alongAxis_comm oa la M lb ib F G MF MG hF hG x
+
+/-- Non-vacuity: the inverse 2-point DFT along axis 0 and along axis 2 of a `2×3×2` array. -/
+example (x : Array ℚ) :
+    alongAxis 1 2 (3 * 2 * 1) 2 (dftInverseNp true (-1 : ℚ) (-1)⁻¹ 2)
+        (alongAxis (1 * 2 * 3) 2 1 2 (dftInverseNp true (-1 : ℚ) (-1)⁻¹ 2) x)
+      = alongAxis (1 * 2 * 3) 2 1 2 (dftInverseNp true (-1 : ℚ) (-1)⁻¹ 2)
+        (alongAxis 1 2 (3 * 2 * 1) 2 (dftInverseNp true (-1 : ℚ) (-1)⁻¹ 2) x) :=
+  C18.along_axis_commute 1 2 3 2 1 _ _ _ _ (dftInverseNp_isMat true _ _ 2) (dftInverseNp_isMat true _ _ 2) x
+
+/-- **The n-d DFT round trip without half-complex, any number of axes** (complex spaces, and real
+spaces with `halfcomplex=False`; the executed `dftForwardNd` / `dftInverseNd` of the `dft` stream).
+For every shape, every duplicate-free in-range axes list in any order, both signs, both back-ends,
+over any field with primitive roots of unity for the transformed lengths, for EVERY array of that
+shape: `DiscreteFourierTransform` (1-d transforms along the axes, last axis first) followed by the
+operator its `inverse` property returns (flipped sign, `1/prod` normalisation, ALSO last axis first —
+so the inverse steps meet the forward steps in the wrong order) returns `(shape, x)` exactly.  Uses
+`along_axis_commute` to reorder the inverse steps and then telescopes (`dft_inverse` per axis).
+`conj`, `re` are not used on this path.  (A real range additionally takes the real part in the
+caller; not part of this statement.) -/
+theorem C18.dft_nd_inverse {K : Type} [Field K] [Inhabited K] (conj re : K → K)
+    (roots : Nat → Option (K × K)) (w : Nat → K) (hroots : ∀ n, roots n = some (w n, (w n)⁻¹))
+    (fftw plus : Bool) (rshape axes : List Nat) (hnd : axes.Nodup)
+    (hin : ∀ a ∈ axes, a < rshape.length)
+    (hprim : ∀ a ∈ axes, IsPrimRoot (w (rshape.getD a 1)) (rshape.getD a 1) ∧
+      ((rshape.getD a 1 : Nat) : K) ≠ 0)
+    (x : Array K) (hx : x.size = OdlModel.Wavelet.prod rshape) :
+    (dftForwardNd roots fftw plus false rshape axes x).bind
+        (fun r => dftInverseNd roots conj re fftw (!plus) false rshape axes r.2)
+      = some (rshape, x) := by
+  have hr : roots = fun n => some (w n, (w n)⁻¹) := funext hroots
+  subst hr
+  rw [dftForwardNd_eq, Option.bind_some, dftInverseNd_full_eq]
+  congr 1
+  set n : Nat → Nat := fun a => rshape.getD a 1 with hn
+  set Fn : Nat → (Nat → K) → Nat → K := fun a => dftForwardNp plus (w (n a)) (w (n a))⁻¹ (n a) with hFn
+  set Gn : Nat → (Nat → K) → Nat → K := fun a => dftInverseNp (!plus) (w (n a)) (w (n a))⁻¹ (n a) with hGn
+  have hax : ∀ a ∈ axes, 0 < n a ∧ ((n a : Nat) : K) ≠ 0 ∧ IsPrimRoot (w (n a)) (n a) := by
+    intro a ha
+    obtain ⟨p1, p2⟩ := hprim a ha
+    refine ⟨?_, p2, p1⟩
+    rcases Nat.eq_zero_or_pos (n a) with h0 | h0
+    · exfalso; apply p2; simp only [hn] at h0; rw [h0]; simp
+    · exact h0
+  have hfwd : (axes.reverse.map fun a =>
+      ((a, (if false && some a == axes.getLast? then hcLen (rshape.getD a 1) else rshape.getD a 1),
+        if fftw then dftForwardFftw plus (w (rshape.getD a 1)) (w (rshape.getD a 1))⁻¹ (rshape.getD a 1)
+        else dftForwardNp plus (w (rshape.getD a 1)) (w (rshape.getD a 1))⁻¹ (rshape.getD a 1)) : Step K))
+      = (axes.reverse.map fun a => ((a, n a, Fn a) : Step K)) := by
+    apply List.map_congr_left
+    intro a ha
+    have hnK := (hax a (by simpa using ha)).2.1
+    simp only [Bool.false_and, Bool.false_eq_true, if_false, hFn, hn]
+    congr 2
+    cases fftw
+    · rfl
+    · funext f k
+      exact (C18.dft_backends_agree _ _ _ hnK plus f k).1
+  have hinv : (axes.reverse.map fun a =>
+      ((a, rshape.getD a 1,
+        if fftw then dftInverseFftw (!plus) (w (rshape.getD a 1)) (w (rshape.getD a 1))⁻¹ (rshape.getD a 1)
+        else dftInverseNp (!plus) (w (rshape.getD a 1)) (w (rshape.getD a 1))⁻¹ (rshape.getD a 1)) : Step K))
+      = (axes.reverse.map fun a => ((a, n a, Gn a) : Step K)) := by
+    apply List.map_congr_left
+    intro a ha
+    have hnK := (hax a (by simpa using ha)).2.1
+    simp only [hGn, hn]
+    congr 2
+    cases fftw
+    · rfl
+    · funext f k
+      exact (C18.dft_backends_agree _ _ _ hnK (!plus) f k).2
+  rw [hfwd, hinv, applyAxes_eq_foldl, applyAxes_eq_foldl]
+  have hlt : ∀ a ∈ axes, a < rshape.length := hin
+  have hlen : ∀ a ∈ axes, rshape.getD a 1 = n a := fun _ _ => rfl
+  obtain ⟨hs1, hs2⟩ := fold_shape axes.reverse rshape n Fn (fun b hb => hlt b (by simpa using hb))
+    (fun b hb => hlen b (by simpa using hb)) x hx
+  set Y := (axes.reverse.map fun a => ((a, n a, Fn a) : Step K)).foldl stepFn (rshape, x) with hY
+  have hYeq : (rshape, Y.2) = Y := Prod.ext hs1.symm rfl
+  rw [fold_reverse axes rshape n Gn
+    (fun a k j => if (!plus) then ((w (n a))⁻¹) ^ (j * k) / ((n a : Nat) : K)
+      else (w (n a)) ^ (j * k) / ((n a : Nat) : K))
+    (fun a => dftInverseNp_isMat (!plus) _ _ _) hnd hlt hlen Y.2, hYeq, hY]
+  refine middle_cancel axes rshape n Fn Gn hlt hlen ?_ ?_ x hx
+  · intro a _ f g hfg k
+    exact dftInverseNp_congr (!plus) _ _ (n a) f g hfg k
+  · intro a ha f k hk
+    obtain ⟨hpos, hnK, hw⟩ := hax a ha
+    exact C18.dft_inverse (w (n a)) (n a) hpos hnK hw plus f k hk
+
+/-- Non-vacuity: shape `(2, 3, 2)`, axes `(2, 0)`, `w = -1`, both signs and back-ends. -/
+example (x : Array ℚ) (hx : x.size = 12) (fftw plus : Bool) :
+    (dftForwardNd (fun n => some (if n = 2 then (-1 : ℚ) else 1, (if n = 2 then (-1 : ℚ) else 1)⁻¹))
+        fftw plus false [2, 3, 2] [2, 0] x).bind
+      (fun r => dftInverseNd (fun n => some (if n = 2 then (-1 : ℚ) else 1, (if n = 2 then (-1 : ℚ) else 1)⁻¹))
+        id id fftw (!plus) false [2, 3, 2] [2, 0] r.2) = some ([2, 3, 2], x) := by
+  have h2 : IsPrimRoot (-1 : ℚ) 2 := ⟨by norm_num, by
+    intro d hd hd2; have : d = 1 := by omega
+    subst this; norm_num⟩
+  refine C18.dft_nd_inverse id id _ (fun n => if n = 2 then (-1 : ℚ) else 1) (fun _ => rfl) fftw plus
+    [2, 3, 2] [2, 0] (by decide) (by decide) ?_ x (by simpa [OdlModel.Wavelet.prod] using hx)
+  intro a ha
+  have : a = 2 ∨ a = 0 := by simpa using ha
+  rcases this with rfl | rfl <;> exact ⟨by simpa using h2, by norm_num⟩
 
 /-- Non-vacuity of `IsPhase`: `q ↦ exp(iπ q)` over `ℂ` is a phase function, and it is not
 trivial (`e 1 = -1`). -/
